@@ -7,6 +7,7 @@ set -u
 export GOFLAGS=-mod=mod GOPROXY=off GOSUMDB=off GOTOOLCHAIN=local
 SRC="$1"; NAME="$2"; PROP="$3"; PKG="${4:-.}"
 W=/tmp/sc_$NAME
+if [ -n "$(git -C /repo status --porcelain)" ]; then echo "/repo has uncommitted changes: commit them first (this script ends with git checkout -- .)"; exit 2; fi
 rm -rf "$W"; git -C /repo worktree add -q --detach "$W" HEAD || exit 2
 DEMO=$(ls "$SRC"/$PKG/seed_demo_test.go)
 cp "$DEMO" "$W/$PKG/seed_demo_test.go"
